@@ -620,6 +620,13 @@ func Lifecycle(rng *rand.Rand, base, days, damage int, multi bool) *Journal {
 			}
 		}
 		for _, a := range op {
+			// the statement constrains assertions on asset / liability accounts only: an assertion on an open
+			// income, expense or equity account, whatever its amount, does not make a journal ill-formed
+			if !isAL(a) && rng.Intn(12) == 0 {
+				j.Dirs = append(j.Dirs, Dir{K: "assert", Z: z, Bal: []Bal{{A: a, C: comms[rng.Intn(len(comms))], Q: []int{0, 1, 30, -7}[rng.Intn(4)]}}})
+			}
+		}
+		for _, a := range op {
 			if rng.Intn(5) == 0 && a != "Equity:Equity" {
 				zero := true
 				for _, c := range comms {
